@@ -27,7 +27,7 @@ def gen_decls(rng):
     decls = []
     for i in range(n):
         t = rng.choice(list(TYPES))
-        name = rng.choice(['f%d' % i, 'f%d' % i, 'shared', 'Name with blank', 'ümlaut'])
+        name = rng.choice(['f%d' % i, 'f%d' % i, 'shared', 'Name with blank', 'ümlaut', 'Rate', 'rate', 'RATE'])
         decls.append({'name': name, 'type': t, 'value': rng.choice(SAMPLE[t]), 'cur': 'EUR' if t == 'currency' else None})
     return decls
 
@@ -80,6 +80,7 @@ def run(ctx):
             t = [x['type'] for x in alld if x['name'] == nm][0]
             data[nm] = ctx.rng.choice(NEWVALS[t])
         if ctx.rng.random() < 0.5: data['no-such-field'] = 'zzz'
+        if i % 4 == 2 and names: data[names[i % len(names)].swapcase()] = 'case-variant'      # another name, not this field
         strs = [x['name'] for x in alld if x['type'] == 'string' and x['value'] != '']
         if strs and i % 3 == 0: data[strs[i % len(strs)]] = ''          # blanking a field is an update like any other
         before = bytes(src)
